@@ -24,7 +24,7 @@ ProjOK(s) ==
     /\ p.rows = 2 * Cardinality(rows'[s])
     /\ SeqSet(p.web) = {v.n : v \in vers'[s]["web"]}
     /\ SeqSet(p.nuts) = {v.n : v \in vers'[s]["nuts"]}
-    /\ p.pub = Len(pub'[s])
+    /\ (rows'[s] # {} => p.pub = Len(pub'[s]))   \* counted for the listed DID only
     /\ (vers'[s]["web"] # {} =>
           LET c == CHOOSE v \in vers'[s]["web"] : \A w \in vers'[s]["web"] : w.n <= v.n IN
           p.svc = c.svc /\ p.nkeys = Cardinality(c.keys))
